@@ -137,6 +137,7 @@ def run_agent(host, cmd, args, workdir, tag, timeout=900, extra_env=None):
     env = base_env()
     env["VERIF_REPO"] = REPO
     env["VERIF_ROOT"] = VERIF
+    env["TMPDIR"] = workdir  # whatever the subject leaves in the temp directory goes away with the scratch directory
     if extra_env:
         env.update(extra_env)
     exe = HOSTS[host]
